@@ -29,6 +29,9 @@ type c10Scn struct {
 	// does not even receive (every DATA arriving in the window is lost)
 	Mute [][2]int `json:"mute,omitempty"`
 	Deaf bool     `json:"deaf,omitempty"`
+	// PR: stream identifiers that are partially reliable (no retransmission): their lost
+	// chunks are abandoned, so a T3 expiry may find nothing left to retransmit
+	PR []int `json:"pr,omitempty"`
 }
 
 func genC10(rt *rapid.T) c10Scn {
@@ -59,6 +62,13 @@ func genC10(rt *rapid.T) c10Scn {
 			x.Mute = append(x.Mute, [2]int{rapid.SampledFrom([]int{0, 30, 60, 120, 400, 800, 1500}).Draw(rt, "mfrom"), rapid.SampledFrom([]int{300, 1100, 1100, 2500, 4000}).Draw(rt, "mlen")})
 		}
 		x.Deaf = rapid.IntRange(0, 3).Draw(rt, "deaf") == 0
+	}
+	if rapid.IntRange(0, 3).Draw(rt, "prstreams") == 0 {
+		for sid := 0; sid <= 2; sid++ {
+			if rapid.Bool().Draw(rt, "pr") {
+				x.PR = append(x.PR, sid)
+			}
+		}
 	}
 	mtu := x.MTU
 	if mtu == 0 {
@@ -193,6 +203,23 @@ func runC10(t *testing.T, x c10Scn, verbose bool) (c vfCase) {
 				p.modelRecv(ch.TSN)
 				got = true
 			}
+			for _, ft := range []uint8{wtFWD, wtIFWD} {
+				if fw := pk.first(ft); fw != nil && !(x.Deaf && muted()) {
+					if d := fw.NewCum - p.rcvCum; d > 0 && d < 1<<31 {
+						for t := range p.rcvSet {
+							if t-p.rcvCum <= d {
+								delete(p.rcvSet, t)
+							}
+						}
+						p.rcvCum = fw.NewCum
+						for p.rcvSet[p.rcvCum+1] {
+							delete(p.rcvSet, p.rcvCum+1)
+							p.rcvCum++
+						}
+					}
+					got = true
+				}
+			}
 			if !got {
 				return
 			}
@@ -303,6 +330,11 @@ func runC10(t *testing.T, x c10Scn, verbose bool) (c vfCase) {
 			prevT3, prevFR, prevCwnd = t3, pk.InFR, pk.CWND
 			cwndAtQuiesce = pk.CWND
 		}
+		for _, sid := range x.PR {
+			if h, err := s.stream(0, uint16(sid), PayloadTypeWebRTCBinary); err == nil {
+				h.s.SetReliabilityParams(false, ReliabilityTypeRexmit, 0)
+			}
+		}
 		base = time.Now()
 		for i, w := range x.Writes {
 			w := w
@@ -336,6 +368,9 @@ func runC10(t *testing.T, x c10Scn, verbose bool) (c vfCase) {
 	}
 	if len(x.Mute) > 0 {
 		c.class("ack-outage")
+	}
+	if len(x.PR) > 0 {
+		c.class("partially-reliable-streams")
 	}
 	c.Nontrivial = lossSignal && windowLimited
 	_ = fmt.Sprint
